@@ -134,6 +134,19 @@ class IOBase(Communicator):
         self._reconnectCallbacks = {}
         self._lock = threading.RLock()
 
+    def announceUpdate(self, pname, value=None, err=None, timestamp=None, validate=True):
+        if pname == 'is_connected' and value and not err:
+            # is_connected=True is valid only as long as there is a connection: the value might have
+            # been determined before an other thread has closed the connection (e.g. the generated
+            # wrapper of read_is_connected announces the value returned some time ago).
+            # closeConnection clears self._conn before it announces False, and updateLock
+            # serializes the updates: an outdated True can never overwrite that False.
+            with self.updateLock:
+                if self._conn is not None:
+                    super().announceUpdate(pname, value, err, timestamp, validate)
+            return
+        super().announceUpdate(pname, value, err, timestamp, validate)
+
     def connectStart(self):
         if not self.is_connected:
             uri = self.uri
